@@ -1255,6 +1255,10 @@ pub fn run_fanout(focus: &'static str, seed: u64, index: u64) -> CaseOut {
             client.settle_all(&marks);
             let _ = sut.quiesce();
             let end = sut.snapshot();
+            let (added, deleted) = (sut.stat(StatsType::KeysAdded), sut.stat(StatsType::KeysDeleted));
+            if added != deleted && end.stored.is_empty() {
+                fail(&mut findings, &["C16"], "C16/keys-added-minus-deleted-differs-from-held/fanout".into(), format!("nothing is held any more, but KeysAdded is {} and KeysDeleted is {}", added, deleted), case.clone());
+            }
             if end.weight_used != 0 || !end.charged.is_empty() || !end.stored.is_empty() {
                 fail(&mut findings, &["C05", "C04"], "C05/weight-left-after-deleting-every-key/fanout".into(), format!("after deleting every held key: total {}, {} ids charged, {} keys stored", end.weight_used, end.charged.len(), end.stored.len()), case.clone());
             }
